@@ -13,16 +13,17 @@ use core::cmp::Ordering;
 pub struct SliceIter<'a, T> {
     s: &'a [T],
     i: usize,
+    j: usize, // one past the last remaining element (the back end moves for `next_back`)
 }
 
 /// `core::slice::<impl [T]>::iter`
 pub fn slice_iter<'a, T>(s: &'a [T]) -> SliceIter<'a, T> {
-    SliceIter { s, i: 0 }
+    SliceIter { s, i: 0, j: s.len() }
 }
 
 /// `<core::slice::Iter<'a, T> as Iterator>::next`
 pub fn iter_next<'a, T>(it: &mut SliceIter<'a, T>) -> Option<&'a T> {
-    if it.i < it.s.len() {
+    if it.i < it.j {
         let r = &it.s[it.i];
         it.i += 1;
         Some(r)
@@ -33,7 +34,7 @@ pub fn iter_next<'a, T>(it: &mut SliceIter<'a, T>) -> Option<&'a T> {
 
 /// `<core::slice::Iter<'a, T> as Iterator>::find`
 pub fn iter_find<'a, T, P: FnMut(&&'a T) -> bool>(it: &mut SliceIter<'a, T>, mut p: P) -> Option<&'a T> {
-    while it.i < it.s.len() {
+    while it.i < it.j {
         let r = &it.s[it.i];
         it.i += 1;
         if p(&r) {
@@ -45,7 +46,7 @@ pub fn iter_find<'a, T, P: FnMut(&&'a T) -> bool>(it: &mut SliceIter<'a, T>, mut
 
 /// `<core::slice::Iter<'a, T> as Iterator>::find_map`
 pub fn iter_find_map<'a, T, B, F: FnMut(&'a T) -> Option<B>>(it: &mut SliceIter<'a, T>, mut f: F) -> Option<B> {
-    while it.i < it.s.len() {
+    while it.i < it.j {
         let r = &it.s[it.i];
         it.i += 1;
         if let Some(b) = f(r) {
@@ -58,7 +59,7 @@ pub fn iter_find_map<'a, T, B, F: FnMut(&'a T) -> Option<B>>(it: &mut SliceIter<
 /// `<core::slice::Iter<'a, T> as Iterator>::position`
 pub fn iter_position<'a, T, P: FnMut(&'a T) -> bool>(it: &mut SliceIter<'a, T>, mut p: P) -> Option<usize> {
     let mut k = 0usize;
-    while it.i < it.s.len() {
+    while it.i < it.j {
         let r = &it.s[it.i];
         it.i += 1;
         if p(r) {
@@ -71,7 +72,7 @@ pub fn iter_position<'a, T, P: FnMut(&'a T) -> bool>(it: &mut SliceIter<'a, T>, 
 
 /// `<core::slice::Iter<'a, T> as Iterator>::any`
 pub fn iter_any<'a, T, P: FnMut(&'a T) -> bool>(it: &mut SliceIter<'a, T>, mut p: P) -> bool {
-    while it.i < it.s.len() {
+    while it.i < it.j {
         let r = &it.s[it.i];
         it.i += 1;
         if p(r) {
@@ -83,7 +84,7 @@ pub fn iter_any<'a, T, P: FnMut(&'a T) -> bool>(it: &mut SliceIter<'a, T>, mut p
 
 /// `<core::slice::Iter<'a, T> as Iterator>::all`
 pub fn iter_all<'a, T, P: FnMut(&'a T) -> bool>(it: &mut SliceIter<'a, T>, mut p: P) -> bool {
-    while it.i < it.s.len() {
+    while it.i < it.j {
         let r = &it.s[it.i];
         it.i += 1;
         if !p(r) {
@@ -135,5 +136,130 @@ pub fn binary_search_by<'a, T, F: FnMut(&'a T) -> Ordering>(s: &'a [T], mut f: F
     } else {
         let result = base + (cmp == Ordering::Less) as usize;
         Err(result)
+    }
+}
+
+/// `<core::slice::Iter<'a, T> as DoubleEndedIterator>::next_back`
+pub fn iter_next_back<'a, T>(it: &mut SliceIter<'a, T>) -> Option<&'a T> {
+    if it.i < it.j {
+        it.j -= 1;
+        Some(&it.s[it.j])
+    } else {
+        None
+    }
+}
+
+/// `<core::slice::Iter<'a, T> as Iterator>::size_hint`
+pub fn iter_size_hint<'a, T>(it: &SliceIter<'a, T>) -> (usize, Option<usize>) {
+    let n = it.j - it.i;
+    (n, Some(n))
+}
+
+/// `<core::slice::Iter<'a, T> as ExactSizeIterator>::len`
+pub fn iter_len<'a, T>(it: &SliceIter<'a, T>) -> usize {
+    it.j - it.i
+}
+
+/// `<core::slice::Iter<'a, T> as Iterator>::count`
+pub fn iter_count<'a, T>(it: SliceIter<'a, T>) -> usize {
+    it.j - it.i
+}
+
+/// `<core::slice::Iter<'a, T> as Iterator>::last`
+pub fn iter_last<'a, T>(it: SliceIter<'a, T>) -> Option<&'a T> {
+    if it.i < it.j {
+        Some(&it.s[it.j - 1])
+    } else {
+        None
+    }
+}
+
+/// `<core::slice::Iter<'a, T> as Iterator>::nth` (an overshooting `n` exhausts the iterator)
+pub fn iter_nth<'a, T>(it: &mut SliceIter<'a, T>, n: usize) -> Option<&'a T> {
+    if n >= it.j - it.i {
+        it.i = it.j;
+        None
+    } else {
+        it.i += n;
+        let r = &it.s[it.i];
+        it.i += 1;
+        Some(r)
+    }
+}
+
+/// `<core::slice::Iter<'a, T> as DoubleEndedIterator>::nth_back`
+pub fn iter_nth_back<'a, T>(it: &mut SliceIter<'a, T>, n: usize) -> Option<&'a T> {
+    if n >= it.j - it.i {
+        it.j = it.i;
+        None
+    } else {
+        it.j -= n;
+        it.j -= 1;
+        Some(&it.s[it.j])
+    }
+}
+
+/// `<core::slice::Iter<'a, T> as Iterator>::fold`
+pub fn iter_fold<'a, T, B, F: FnMut(B, &'a T) -> B>(mut it: SliceIter<'a, T>, init: B, mut f: F) -> B {
+    let mut acc = init;
+    while it.i < it.j {
+        let r = &it.s[it.i];
+        it.i += 1;
+        acc = f(acc, r);
+    }
+    acc
+}
+
+/// `<core::slice::Iter<'a, T> as Iterator>::for_each`
+pub fn iter_for_each<'a, T, F: FnMut(&'a T)>(mut it: SliceIter<'a, T>, mut f: F) {
+    while it.i < it.j {
+        let r = &it.s[it.i];
+        it.i += 1;
+        f(r);
+    }
+}
+
+/// `<core::slice::Iter<'a, T> as Iterator>::__iterator_get_unchecked` (used by `Zip`; callers stay below `size_hint`)
+pub fn iter_get_unchecked<'a, T>(it: &mut SliceIter<'a, T>, idx: usize) -> &'a T {
+    &it.s[it.i + idx]
+}
+
+/// `<core::slice::Iter<'a, T> as Iterator>::rposition` (index counted from the front, searched from the back)
+pub fn iter_rposition<'a, T, P: FnMut(&'a T) -> bool>(it: &mut SliceIter<'a, T>, mut p: P) -> Option<usize> {
+    let mut k = it.j - it.i;
+    while it.i < it.j {
+        it.j -= 1;
+        k -= 1;
+        if p(&it.s[it.j]) {
+            return Some(k);
+        }
+    }
+    None
+}
+
+/// `core::slice::Iter::<'a, T>::as_slice`
+pub fn iter_as_slice<'a, T>(it: &SliceIter<'a, T>) -> &'a [T] {
+    &it.s[it.i..it.j]
+}
+
+/// stands in for `core::slice::IterMut<'a, T>`
+pub struct SliceIterMut<'a, T> {
+    s: &'a mut [T],
+}
+
+/// `core::slice::<impl [T]>::iter_mut`
+pub fn slice_iter_mut<'a, T>(s: &'a mut [T]) -> SliceIterMut<'a, T> {
+    SliceIterMut { s }
+}
+
+/// `<core::slice::IterMut<'a, T> as Iterator>::next`
+pub fn iter_mut_next<'a, T>(it: &mut SliceIterMut<'a, T>) -> Option<&'a mut T> {
+    let s = core::mem::replace(&mut it.s, &mut []);
+    match s {
+        [] => None,
+        [first, rest @ ..] => {
+            it.s = rest;
+            Some(first)
+        }
     }
 }
